@@ -207,6 +207,21 @@ def kani_message(prog):
 %s
     }''' % (ml + 3, v.ident, val, len(sp), checks))
         hs.append(('ser_' + v.ident, 'get_serializations'))
+        def opt(x):
+            return 'None' if x is None else 'Some(%s)' % rs_str(x)
+        m = None if v.disabled else v.message
+        dm = None if v.disabled else (v.detailed_message if v.detailed_message is not None else v.message)
+        doc = None if v.disabled else oracle.doc_text(v)
+        lens = [len(x.encode('utf-8')) for x in (m, dm, doc) if x]
+        out.append('''    #[kani::proof]
+    #[kani::unwind(%d)]
+    fn msg_%s() {
+        let v: En = %s;
+        assert!(v.get_message().map(|s| s.as_bytes()) == %s.map(|s: &str| s.as_bytes()));
+        assert!(v.get_detailed_message().map(|s| s.as_bytes()) == %s.map(|s: &str| s.as_bytes()));
+        assert!(v.get_documentation().map(|s| s.as_bytes()) == %s.map(|s: &str| s.as_bytes()));
+    }''' % (max(lens + [1]) + 3, v.ident, val, opt(m), opt(dm), opt(doc)))
+        hs.append(('msg_' + v.ident, 'get_message/get_detailed_message/get_documentation on %s' % v.ident))
     text = '\n#[cfg(kani)]\nmod vx_proofs {\n    use super::*;\n    type En = %s%s;\n%s\n}\n' % (E, inst, '\n'.join(out))
     return text, hs
 
@@ -239,6 +254,52 @@ def gen_props(prog):
             ens.append(('%s_other_keys' % v.ident, '(%s ==> r is None)' % none_cond))
         plan[(E, 'EnumProperty', getter)] = Contract(ensures=ens, props=['C15'])
     return '', plan, {}, ''
+
+def kani_props(prog):
+    """Twins on the real derive: per variant (symbolic payload) and getter, every key declared anywhere in the enum plus unknown / case-changed
+    keys is queried (a finite key set - the all-strings claim is Verus'; these twins stand in only when the generated code leaves Verus' subset)."""
+    from .spec_print import any_value
+    E = prog.name
+    inst = vspec.rust_inst(prog)
+    keys = []
+    for v in prog.variants:
+        for g in v.props:
+            for k, _ in g:
+                for kk in (k, k.upper(), k + 'x', k[:-1]):
+                    if kk not in keys:
+                        keys.append(kk)
+    keys += ['', 'zz_unknown']
+    ml = max(len(k.encode('utf-8')) for k in keys)
+    for v in prog.variants:
+        for g in v.props:
+            for _, x in g:
+                if isinstance(x, str):
+                    ml = max(ml, len(x.encode('utf-8')))
+    out, hs = [], []
+    for v in prog.variants:
+        val = any_value(prog, v)
+        if val is None:
+            continue
+        for getter, pyt in (('get_str', str), ('get_int', int), ('get_bool', bool)):
+            checks = []
+            for k in keys:
+                e = None
+                if not v.disabled:
+                    for g in v.props:
+                        for kk, x in g:
+                            if kk == k and type(x) is pyt and e is None:
+                                e = x
+                if pyt is str:
+                    exp = 'None' if e is None else 'Some(%s.as_bytes())' % rs_str(e)
+                    checks.append('        assert!(v.%s(%s).map(|s| s.as_bytes()) == %s);' % (getter, rs_str(k), exp))
+                elif pyt is int:
+                    checks.append('        assert!(v.%s(%s) == %s);' % (getter, rs_str(k), 'None' if e is None else 'Some(%di64)' % e))
+                else:
+                    checks.append('        assert!(v.%s(%s) == %s);' % (getter, rs_str(k), 'None' if e is None else ('Some(true)' if e else 'Some(false)')))
+            out.append('    #[kani::proof]\n    #[kani::unwind(%d)]\n    fn prop_%s_%s() {\n        let v: En = %s;\n%s\n    }' % (ml + 3, getter, v.ident, val, '\n'.join(checks)))
+            hs.append(('prop_%s_%s' % (getter, v.ident), '%s on %s' % (getter, v.ident)))
+    text = '\n#[cfg(kani)]\nmod vx_proofs {\n    use super::*;\n    type En = %s%s;\n%s\n}\n' % (E, inst, '\n'.join(out))
+    return text, hs
 
 # ---------------------------------------------------------------------------------------
 # C08: VariantArray + the agreement lemma (COUNT / iter come from spec_iter, VariantNames from spec_print)
